@@ -445,6 +445,15 @@ def check_c17(tier, seed):
         a2 = sim_collect(prop, tier, seed, binary=vbin, tag="-featured")
         lines += a2["lines"]
         violations += a2["violations"]
+    # ... and rrtk itself built WITHOUT std (alloc + libm): the pointer and the Rc variant exist there and
+    # to_dyn! must convert them (the macro has a separate expansion for that build)
+    vbin3 = variant_binary("libm_dim")
+    if vbin3:
+        a3 = sim_collect(prop, tier, seed, binary=vbin3, tag="-alloc-only", nruns=None if tier == "quick" else 400000,
+                         note="found by the simulator built against rrtk with features alloc,libm (no std): replay with "
+                              "/verif/target/variants/libm_dim/release/rrtk-sim-libm_dim replay <this file>")
+        lines += a3["lines"]
+        violations += a3["violations"]
     # ... and a calling crate that is #![no_std] itself while rrtk is built with std: to_dyn! must expand
     # and behave there too (an expansion that names `std::` does not even compile)
     nd = os.path.join(VERIF, "callers", "nostd")
@@ -617,6 +626,10 @@ def scan_accessors():
     return found
 
 
+SAFE_ROUTE_PROBES = [("from_unsafe", ["E0308", "E0277"]), ("into_unsafe", ["E0277"]), ("tuple_ctor", ["E0423", "E0603", "E0616"]),
+                     ("unsafe_borrow", ["E0133"]), ("from_ptr_safe", ["E0133"])]
+
+
 def check_c16(tier, seed):
     prop = "C16"
     t0 = time.time()
@@ -745,6 +758,24 @@ def check_c16(tier, seed):
     elif "E0133" not in pr.stdout:
         print(pr.stdout[-3000:])
         harness_error("the unsafe probe crate fails to build for another reason than E0133")
+    # more negative probes: programs without `unsafe` that try one route each from a raw pointer to a Reference
+    # (From / Into from the public unsafe enum, the tuple constructor, the unsafe enum's own borrow, the pointer
+    # constructor called without unsafe). Each must be rejected, for the stated reason.
+    for pname, codes in SAFE_ROUTE_PROBES:
+        pr = run(["cargo", "build", "--release", "--offline", "--bin", pname], cwd=os.path.join(VERIF, "callers", "safe_route_probes"), timeout=1800)
+        if pr.returncode == 0:
+            sig = "C16|safe_route_to_reference|" + pname
+            dest_dir = os.path.join(REPLAYS, prop)
+            os.makedirs(dest_dir, exist_ok=True)
+            dest = os.path.join(dest_dir, "safe-route-%s.probe" % pname)
+            open(dest, "w").write("# /verif/callers/safe_route_probes/src/bin/%s.rs contains no `unsafe` and must not compile, but\n"
+                                  "# `cd /verif/callers/safe_route_probes && cargo build --release --offline --bin %s` succeeded\nexpect=%s\n" % (pname, pname, sig))
+            violations += 1
+            lines.append("VIOLATION property=%s replay=%s" % (prop, dest))
+            lines.append("  signature=%s detail=a program without unsafe built a Reference that nothing keeps alive (probe %s compiles)" % (sig, pname))
+        elif not any(c in pr.stdout for c in codes):
+            print(pr.stdout[-3000:])
+            harness_error("safe-route probe %s fails to build for another reason than %s" % (pname, "/".join(codes)))
     # accessors the shape table does not know
     unknown = [x for x in scan_accessors() if x not in DANGLE_SHAPES]
     wall = time.time() - t0
@@ -783,7 +814,7 @@ def check_c16(tier, seed):
 
 # ---------------------------------------------------------------- C19: feature configurations
 
-VARIANTS = ["std_nodim", "stdrelease_nodim", "stddebug_dim", "stdmicromath_dim", "stdlibm_dim", "libm_dim", "libm_nodim", "micromath_dim", "micromath_nodim"]
+VARIANTS = ["std_nodim", "stdrelease_nodim", "stddebug_dim", "stdmicromath_dim", "stdlibm_dim", "libm_dim", "libm_nodim", "libm_micromath_dim", "micromath_dim", "micromath_nodim"]
 import re as _re
 _VAL = _re.compile(r"[0-9a-f]{8}")
 
@@ -956,11 +987,11 @@ def check_c19(tier, seed, only_run=None, only_mode=None, only_build=None):
             "trace_lines_compared": ops_compared,
             "runs_per_hour": int(compared / max(wall, 1e-6) * 3600),
             "exemptions": "values of runs containing an EWMA or exponent node: libm within 1e-4 of the run's value scale, micromath category+timestamp only",
-            "components": {"real": ["every rrtk type reached by the node, comb, device and settable worlds, in ten build configurations"],
+            "components": {"real": ["every rrtk type reached by the node, comb, device and settable worlds, in eleven build configurations"],
                            "stub": ["leaf sensors, clocks, motors, reference build as oracle"]},
             "exhaustive": False,
         },
-        "assumptions": ["the std + dim_check_release build is the reference; agreement of all ten builds is what is checked (beyond the 3 x 2 grid: the crate's default features with the rrtk package compiled without / with debug assertions, and std together with micromath / with libm, where std's functions must win)",
+        "assumptions": ["the std + dim_check_release build is the reference; agreement of all eleven builds is what is checked (beyond the 3 x 2 grid: the crate's default features with the rrtk package compiled without / with debug assertions, std together with micromath / with libm, where std's functions must win, and libm together with micromath without std, where libm's must)",
                         "plan generation is build-independent (no float-library calls on the generation path that differ between builds)"] + ASSUMPTIONS[3:],
         "wall_s": round(wall, 3),
         "violations": violations,
